@@ -73,6 +73,22 @@ CHECKS = {
           "courses are exempted for random pairs and probed by three pinned events (known findings KF-04..06). Trusted: TLC, the "
           "pi R / 180 unit conversion and f64 quantisation in the harness."),
     technique="TLA+ axis-journey step machine enumerated by TLC (spec->impl replay) + relational laws as a TLC trace validator (impl->spec)", design_ref="DESIGN.md 5 C16"),
+ "C12": dict(
+    text=("closest_point: Gen_Closest.tla enumerates geometry x lattice query point (77-entry catalogue of all 10 types incl. holes "
+          "touching the shell, C/L/U/comb shapes, slivers, nested collections, empty and zero-length input; every Line / Rect / "
+          "Triangle / 3-vertex LineString on small lattices; every simple lattice polygon of Gen_Poly alone, pairwise and in mixed "
+          "collections) and decides the required answer exactly: Intersection iff Pos(g,p) # E, else the rational squared distance "
+          "and the SET of admissible nearest points; Indeterminate only for empty / zero-length input; ClosestLaws is an invariant. "
+          "Replay through concrete impls, the Geometry enum, representation variants and exact similarity maps. interior_point: the "
+          "same geometries are executed and every distinct answer is an event (geometry and point x 2^11 as integers) judged by "
+          "Trace_Interior.tla: None iff empty, never exterior, strictly interior where the geometry has interior of its own "
+          "dimension; a panic on valid input is rejected."),
+    note=("Trusted: TLC, PointSet!Pos / Segs, Lattice rationals, exactness of f64 x 2^11. Returned points off the 2^-11 lattice are judged "
+          "through their rounded image only when it is >= sqrt 2 lattice units from every segment, else counted undecided (never "
+          "rejected; > 2% undecided is a tool error). Flat Triangles and collections with a zero-length member are outside the "
+          "enumerated domain (geo's own validation rejects them); for two-vertex curves only 'intersects' is demanded, as geo documents "
+          "an endpoint there."),
+    technique="TLA+ exact nearest-point set enumerated by TLC (spec->impl replay) + interior points judged by a TLC trace validator", design_ref="DESIGN.md 5 C12"),
  "C18": dict(
     text=("PolySession.tla is the state machine of Polygon / LineString / Rect under the public constructor and mutator calls "
           "(closures = edit sequences + Ok/Err exit). TLC model-checks RingsClosed and RectOrdered over all histories within the "
